@@ -57,10 +57,19 @@ class Controller:
 
     def drive_until(self, fut):
         while not fut._xv_done:
-            if self.pos >= len(self.order):
-                raise core.HarnessError("completion order exhausted")
-            i = self.order[self.pos]
-            self.pos += 1
+            # the next task of the scripted completion order that exists and
+            # has not run yet; if the script has nothing more to offer (the
+            # library submitted something the script does not know about),
+            # the awaited task itself
+            i = None
+            while self.pos < len(self.order):
+                j = self.order[self.pos]
+                self.pos += 1
+                if j < len(self.tasks) and not self.tasks[j][0]._xv_done:
+                    i = j
+                    break
+            if i is None:
+                i = [t[0] for t in self.tasks].index(fut)
             f, fn, args, kw = self.tasks[i]
             try:
                 f._xv_set(fn(*args, **kw), None)
